@@ -256,6 +256,12 @@ pub fn run_http_case(case: &HttpCase, with_access_list: bool) -> CaseResult {
                 if others > limit {
                     out.label("swarm>limit");
                 }
+                if others > 255 {
+                    out.label("swarm>255");
+                }
+                if exp.seeders > 255 {
+                    out.label("seeders>255");
+                }
             }
             HttpOp::Scrape { fam, hashes } => {
                 let src = src_ip(*fam, 0);
@@ -462,6 +468,19 @@ pub fn http_op(p: HttpGen) -> BoxedStrategy<HttpOp> {
     } else {
         prop_oneof![12 => announce, 2 => scrape, p.clean_w.max(1) => clean, 1 => observe].boxed()
     }
+}
+
+/// One torrent, hundreds to thousands of keys, long histories (see udpdrv::udp_big_swarm)
+pub fn http_big_swarm(p: HttpGen) -> BoxedStrategy<HttpCase> {
+    let q = HttpGen { torrents: 1, stop_w: 1, clean_w: 1, ..p };
+    (
+        prop_oneof![Just(1usize), Just(50usize), Just(100usize), Just(400usize)],
+        prop_oneof![Just(1usize), Just(100usize)],
+        any::<u64>(),
+        proptest::collection::vec(http_op(q), p.max_ops / 2..p.max_ops),
+    )
+        .prop_map(|(max_peers, max_scrape_torrents, rng_seed, ops)| HttpCase { max_peers, max_scrape_torrents, rng_seed, access_mode: 0, ops })
+        .boxed()
 }
 
 pub fn http_case(p: HttpGen) -> BoxedStrategy<HttpCase> {
